@@ -8,7 +8,7 @@ ID = "C04"
 LEVEL = "exploration"
 RULE = ("Hypothesis-generated sessions: 1-6 operations from {shell, exec_out, streaming_shell, root, list, stat, pull, push} x model "
         "filesystem x device choices (remote ids, WRTE cuts of sync replies, lag of sync replies behind later OKAYs, eager/strict/duplicate "
-        "CLSE, CLSE(0,id) replies, packet order tape, device-side sync FAILs at SEND/k-th DATA/DONE/RECV, streaming_shell generators abandoned after k items) x maxdata x both APIs. Oracle: protocol monitor inside the device model "
+        "CLSE, CLSE(0,id) replies, packet order tape, device-side sync FAILs at SEND/k-th DATA/DONE/RECV, streaming_shell generators abandoned after k items, pull destinations that run out of space mid-transfer); plus the same monitor over 2-3 concurrent operations under generated thread/task schedules (line-level preemption inside _open) x maxdata x both APIs. Oracle: protocol monitor inside the device model "
         "(AOSP protocol.txt stream rules) plus end-of-operation accounting per stream. Non-trivial: a stream with >=2 device or host "
         "WRTEs, or >=2 streams. Distinct = distinct case hash.")
 ASSUMPTIONS = ["device simulator/monitor implements the stream rules of AOSP protocol.txt", "in-memory transport, virtual clock"]
@@ -73,7 +73,22 @@ def check_case(case):
     return None, info
 
 
+def check_concurrent(case):
+    """The same monitor over 2-3 operations running concurrently under a generated schedule (fresh ids, OKAY accounting, CLSE rules per stream)."""
+    from .. import conc
+    r = conc.run_concurrent(case, case.get("sched") or (), trace=case.get("trace") or "open")
+    info = {"classes": [case["api"], "concurrent"], "nontrivial": r.switches >= 1}
+    if r.deadlock or r.budget_exhausted:
+        info["inconclusive"] = True       # deadlocks are C06's subject
+        return None, info
+    v = common.generic_violation(r.out, case, framing=True, protocol=True)
+    info["sample"] = {"ops": [o["op"] for o in case["ops"]], "switches": r.switches, "steps": r.steps, "api": case["api"], "open_ids": [lid for _, lid, _, _ in r.out.sim.opens]}
+    return v, info
+
+
 def replay(part, case):
+    if part == "concurrent":
+        return check_concurrent(case)[0]
     return check_case(case)[0]
 
 
@@ -82,4 +97,6 @@ def run(tier, seed):
     n = 5000 if tier == "quick" else 100000
     col = harness.corpus_part(ID, "main", check_case)
     col.merge(harness.hypothesis_part("main", sc.session(max_ops=6, fail_plans=True), check_case, n, seed, shrink=(tier == "thorough")))
+    from . import c06
+    col.merge(harness.hypothesis_part("concurrent", c06.workloads(), check_concurrent, 2000 if tier == "quick" else 40000, seed, shrink=(tier == "thorough")))
     return harness.finish(ID, tier, seed, LEVEL, col, RULE, ASSUMPTIONS, t0)
